@@ -31,6 +31,26 @@ class World:
             self.decls[self.classes[cls]] = reflect_class(self, cls)
         return self.classes[cls]
 
+    def decls_term_for(self, chunk):
+        """the declarations the given case lines reach: class ids at the head of a line, under TData / PInst anywhere in the
+        lines, and transitively the classes those declarations mention (a shard then costs what its own cases need, not what
+        the whole suite declared)"""
+        import re
+        text = "\n".join(chunk)
+        todo = [int(x) for x in re.findall(r"(?m)^\((\d+)%nat", text)]
+        todo += [int(x) for x in re.findall(r"(?:TData|PInst) \(?(\d+)", text)]
+        need = set()
+        while todo:
+            i = todo.pop()
+            if i in need:
+                continue
+            need.add(i)
+            d = self.decls.get(i)
+            if d:
+                todo.extend(int(x) for x in re.findall(r"(?:TData|PInst) \(?(\d+)", d))
+        arms = "".join("  | %d%%nat => Some (%s)\n" % (i, self.decls[i]) for i in sorted(need) if self.decls.get(i))
+        return "(fun c : nat => match c with\n%s  | _ => None end)" % arms
+
     def decls_term(self):
         arms = "".join("  | %d%%nat => Some (%s)\n" % (i, d) for i, d in sorted(self.decls.items()) if d)
         return "(fun c : nat => match c with\n%s  | _ => None end)" % arms
